@@ -140,6 +140,7 @@ type Write struct {
 type Knobs struct {
 	Mount                 int    // 0 granted when source has the blob, 1 declined with 202+Location, 2 unsupported (202 upload as if no mount)
 	AnonymousMount        bool   // grant a mount without "from" when any repository holds the blob
+	MountNoLocation       bool   // a granted mount answers 201 without a Location header (a fronting proxy that drops it)
 	ChunkMin              int    // OCI-Chunk-Min-Length announced on upload POST (0: none)
 	ChunkMinEnforce       bool   // a chunk that follows one below the minimum is refused with 400
 	LinkSecondLine        bool   // paged tag listings carry two Link header lines, rel="next" on the second
@@ -623,7 +624,9 @@ func (g *Reg) uploads(req *simnet.Request, repo, id string, q url.Values) *simne
 			if granted {
 				g.journal(Write{Seq: req.Seq, Kind: "mount", Repo: repo, Digest: md})
 				r := resp(201, "")
-				r.Header.Set("Location", "/v2/"+repo+"/blobs/"+md)
+				if !g.K.MountNoLocation {
+					r.Header.Set("Location", "/v2/"+repo+"/blobs/"+md)
+				}
 				r.Header.Set("Docker-Content-Digest", md)
 				return r
 			}
